@@ -108,7 +108,7 @@ type c14Case struct {
 }
 
 func c14Run(c *Ctx, i int, r *gen.R) {
-	spec := r.Table(gen.TableOpts{MaxCols: 4, MaxRows: 5, ZeroHeaderOK: true, MinCols: 0, Noise: gen.NoiseSkipable | gen.NoiseAlign,
+	spec := r.Table(gen.TableOpts{MaxCols: 4, MaxRows: 5, ZeroHeaderOK: true, MinCols: 0, Noise: gen.NoiseSkipable | gen.NoiseAlign | gen.NoiseCallbacks,
 		Item: func(r *gen.R) gen.ItemSpec {
 			switch r.Intn(12) {
 			case 0:
